@@ -503,9 +503,9 @@ pub fn c01(rep: &mut Report, thorough: bool) {
     for plane2 in [false, true] {
         for s in &salts {
             // byte sweeps / coded contents come from the salt of the pixel generator; full buffer
-            check_write(&Case { win: None, rows: H, plane2, salt: 0xC0100 + *s }, rep);
+            check_write(&Case { win: None, rows: H, plane2, salt: 0xC0100 + *s, pred: None }, rep);
         }
-        check_write(&Case { win: None, rows: 1, plane2, salt: 0xC0177 }, rep);
+        check_write(&Case { win: None, rows: 1, plane2, salt: 0xC0177, pred: None }, rep);
     }
     // memory: each chip's plane holds exactly its rectangle of the image
     for plane2 in [false, true] {
@@ -613,7 +613,20 @@ pub fn c06(rep: &mut Report, thorough: bool, seed: u64) {
     }
     for (i, w) in wins.iter().enumerate() {
         for plane2 in [false, true] {
-            check_write(&Case { win: Some(*w), rows: w.3, plane2, salt: 0xC0600 + i as u64 }, rep);
+            check_write(&Case { win: Some(*w), rows: w.3, plane2, salt: 0xC0600 + i as u64, pred: None }, rep);
+            // the same partial write directly after another call on the same driver
+            let preds = [
+                Op12::Write1Partial(*w, vec![0x3C; (w.2 / 8) as usize]),
+                Op12::Write2Partial((8, 8, 64, 4), vec![0xA5; 32]),
+                Op12::RefreshPartial(*w),
+                Op12::Write1(small_rows(1)),
+                Op12::SetMode(9),
+                Op12::Refresh,
+            ];
+            if thorough || i % 2 == plane2 as usize {
+                let p = preds[(i + plane2 as usize) % preds.len()].clone();
+                check_write(&Case { win: Some(*w), rows: w.3, plane2, salt: 0xC0600 + i as u64, pred: Some(p) }, rep);
+            }
         }
     }
 }
@@ -664,6 +677,83 @@ pub fn c10(rep: &mut Report) {
             }
             for (class, tags, detail) in fails {
                 fail(rep, op.name(), &class, tags, detail, case.clone());
+            }
+        }
+    }
+}
+
+/// "the line is driven to its level before the transfer it qualifies": what each controller decodes
+/// must not depend on the level the select and data/command lines happen to have when the driver is
+/// created. Each sequence runs on a board whose outputs power up released (CS high, D/C low) and on
+/// boards with hostile power-on levels; the per-controller (command, parameter count, content) streams
+/// must be identical. No reset() in front: reset() is not required before init()/writes by the API.
+pub fn c10_power_on_levels(rep: &mut Report) {
+    let rst = Pin::RstM1S1.bit() | Pin::RstM2S2.bit();
+    let cs = Pin::CsM1.bit() | Pin::CsS1.bit() | Pin::CsM2.bit() | Pin::CsS2.bit();
+    let dc = Pin::DcM1S1.bit() | Pin::DcM2S2.bit();
+    let benign = rst | cs;
+    // only the D/C lines vary: C10 is about the D/C line; the chip selects stay released
+    let hostile: [(&str, u16); 3] = [
+        ("all-outputs-high", rst | cs | dc),
+        ("only-upper-dc-high", rst | cs | Pin::DcM2S2.bit()),
+        ("only-lower-dc-high", rst | cs | Pin::DcM1S1.bit()),
+    ];
+    let mut seqs: Vec<Vec<Op12>> = ops12().into_iter().map(|o| vec![o]).collect();
+    seqs.push(vec![Op12::Init(0), Op12::Write1Partial((640, 488, 16, 8), vec![0xA5; 16])]);
+    seqs.push(vec![Op12::GetStatus, Op12::Init(3)]);
+    seqs.push(vec![Op12::Reset, Op12::Init(0)]);
+    let stream = |levels: u16, seq: &Vec<Op12>| -> Option<Vec<Vec<(u32, u8, u32, u64)>>> {
+        let mut rig = Rig12::new(|b| b.levels = levels);
+        for op in seq {
+            if !rig.apply(op).is_ok() {
+                return None;
+            }
+        }
+        let b = rig.board.borrow();
+        Some(b.chips.iter().map(|c| c.cmds.iter().map(|r| (r.opidx, r.op, r.nparams, r.hash)).collect()).collect())
+    };
+    for seq in &seqs {
+        let base = stream(benign, seq);
+        for (name, lv) in hostile {
+            rep.eval(P);
+            rep.nontrivial(hash_str(&format!("12c10pl|{}|{}", name, seq.iter().map(|o| o.to_json().to_string()).collect::<Vec<_>>().join(";"))));
+            let got = stream(lv, seq);
+            let (base, got) = match (&base, &got) {
+                (Some(b), Some(g)) => (b, g),
+                (None, None) => {
+                    rep.count("ops_failing_for_other_reasons", 1);
+                    continue;
+                }
+                _ => {
+                    fail(rep, seq[0].name(), "dc-not-driven", vec![format!("power-on={}", name), "outcome".into()], "the sequence succeeds or fails depending on the power-on level of the control lines".into(), J::obj().set("panel", P).set("power_on_levels", name));
+                    continue;
+                }
+            };
+            for chip in 0..4 {
+                rep.count("power_on_streams_compared", 1);
+                rep.count("power_on_commands_compared", base[chip].len() as u64);
+                if base[chip] != got[chip] {
+                    let k = base[chip].iter().zip(got[chip].iter()).position(|(a, b)| a != b).unwrap_or(base[chip].len().min(got[chip].len()));
+                    let opi = base[chip].get(k).or(got[chip].get(k)).map(|r| r.0).unwrap_or(1) as usize;
+                    let entry = seq.get(opi.saturating_sub(1)).map(|o| o.name()).unwrap_or("new");
+                    let case = J::obj().set("panel", P).set("power_on_levels", name).set("ops", J::Arr(seq.iter().map(|o| o.to_json()).collect()));
+                    fail(
+                        rep,
+                        entry,
+                        "dc-not-driven",
+                        vec![format!("power-on={}", name)],
+                        format!(
+                            "controller {} decodes a different stream when the control lines power up as {} (command #{}: released power-up {:02X?}, this power-up {:02X?}): a select or D/C line was not driven before the transfer it qualifies",
+                            CHIP_NAMES[chip],
+                            name,
+                            k,
+                            base[chip].get(k).map(|r| (r.1, r.2)),
+                            got[chip].get(k).map(|r| (r.1, r.2))
+                        ),
+                        case,
+                    );
+                    break;
+                }
             }
         }
     }
